@@ -11,7 +11,8 @@ Per model `M`:
                   variable `beh t` = the borrower argument of the call in progress) may differ;
 * `M.Parked t s`  task `t` sits in the `sleep(0)` of `checkpoint_if_cancelled` (`preSpin`), or
                   there with `_must_cancel` delivered (`preSpinMC`);
-* `M.parked_undisturbed`  no event executed by *another* task moves a parked task.
+* `M.parked_undisturbed` / `M.other_keeps_pc`  no event executed by *another* task moves a
+                  parked task.
 -/
 import AnyioModel.Sync.LockProofs
 import AnyioModel.Sync.SemaphoreProofs
@@ -336,6 +337,167 @@ def SameBut (t : Nat) (s s' : Condition.State) : Prop :=
   s'.wasSet = s.wasSet ∧ s'.notified = s.notified ∧ s'.issued = s.issued ∧
   s'.consumedDirect = s.consumedDirect ∧ s'.consumedPassed = s.consumedPassed ∧
   s'.dropped = s.dropped ∧ ∀ u, u ≠ t → s'.cpc u = s.cpc u
+
+/-- `t` is parked in a `checkpoint_if_cancelled` of the condition (in `wait`, or in the embedded
+lock's `acquire`) -/
+def CParked (t : Nat) (s : Condition.State) : Prop :=
+  s.cpc t = .waitPre ∨ s.cpc t = .waitPreMC ∨ s.cpc t = .acq
+
+theorem setEvent_cpc (p : Bool) (u : Nat) (s : Condition.State) {t : Nat} (hp : CParked t s) :
+    (setEvent p u s).cpc t = s.cpc t ∧ (setEvent p u s).lock = s.lock := by
+  unfold setEvent
+  split
+  · rename_i h; refine ⟨?_, rfl⟩
+    simp only [upd]; split
+    · rename_i heq; subst heq; rcases hp with hp | hp | hp <;> simp [hp] at h
+    · rfl
+  · rename_i h; refine ⟨?_, rfl⟩
+    simp only [upd]; split
+    · rename_i heq; subst heq; rcases hp with hp | hp | hp <;> simp [hp] at h
+    · rfl
+  · exact ⟨rfl, rfl⟩
+
+theorem notifyLoop_cpc (n : Nat) (s : Condition.State) {t : Nat} (hp : CParked t s) :
+    (notifyLoop n s).cpc t = s.cpc t ∧ (notifyLoop n s).lock = s.lock := by
+  induction n generalizing s with
+  | zero => exact ⟨rfl, rfl⟩
+  | succ n ih =>
+    simp only [notifyLoop]
+    split
+    · exact ⟨rfl, rfl⟩
+    · rename_i u rest _
+      have hp1 : CParked t { s with waiters := rest, issued := s.issued + 1 } := hp
+      have h1 := setEvent_cpc false u { s with waiters := rest, issued := s.issued + 1 } hp1
+      have hp2 : CParked t (setEvent false u { s with waiters := rest, issued := s.issued + 1 }) := by
+        unfold CParked; rw [h1.1]; exact hp
+      have h2 := ih _ hp2
+      exact ⟨by rw [h2.1, h1.1], by rw [h2.2, h1.2]⟩
+
+theorem passOn_cpc (s : Condition.State) {t : Nat} (hp : CParked t s) :
+    (passOn s).cpc t = s.cpc t ∧ (passOn s).lock = s.lock := by
+  unfold passOn
+  split
+  · exact ⟨rfl, rfl⟩
+  · rename_i u rest _
+    exact setEvent_cpc true u { s with waiters := rest } hp
+
+theorem lockResult_cpc {s s' : Condition.State} {u t : Nat} (hne : t ≠ u) {during : CPc}
+    {onRet o : Condition.Out} {r : Option (Lock.State × Lock.Out)}
+    (h : lockResult s u during onRet r = some (s', o)) :
+    s'.cpc t = s.cpc t ∧ ∃ lo, r = some (s'.lock, lo) := by
+  unfold lockResult at h
+  split at h
+  · contradiction
+  all_goals (cases h; exact ⟨by simp [hne], _, rfl⟩)
+
+theorem reacquire_cpc {s2 s' : Condition.State} {u t : Nat} (hne : t ≠ u) {exc : Bool}
+    {o : Condition.Out} (h : reacquire u exc s2 = some (s', o)) :
+    s'.cpc t = s2.cpc t ∧ ∃ lo, Lock.step s2.lock (.acquire u false) = some (s'.lock, lo) := by
+  unfold reacquire at h
+  exact lockResult_cpc hne h
+
+/-- an event executed by another task moves neither the condition-level nor the lock-level program
+counter of a task parked in `checkpoint_if_cancelled`, provided the task is not in the embedded
+lock's queue -/
+theorem other_keeps_pc {s s' : Condition.State} {e : Condition.Ev} {o : Condition.Out} {t : Nat}
+    (hp : CParked t s) (hq : ∀ c, (t, c) ∉ s.lock.waiters) (he : actor e ≠ t)
+    (hs : Condition.step s e = some (s', o)) :
+    s'.cpc t = s.cpc t ∧ s'.lock.pc t = s.lock.pc t := by
+  have hne : t ≠ actor e := fun h => he h.symm
+  have via : ∀ {l' : Lock.State} {e' : Lock.Ev} {lo : Lock.Out}, Lock.actor e' ≠ t →
+      Lock.step s.lock e' = some (l', lo) → l'.pc t = s.lock.pc t :=
+    fun hn h => Lock.other_keeps_pc hq hn h
+  cases e <;> simp only [actor] at hne he <;> simp only [Condition.step] at hs
+  case acquire u pre =>
+    split at hs; · contradiction
+    obtain ⟨h1, lo, h2⟩ := lockResult_cpc hne hs
+    exact ⟨h1, via (by simpa [Lock.actor] using he) h2⟩
+  case acquireNowait u =>
+    split at hs; · contradiction
+    obtain ⟨h1, lo, h2⟩ := lockResult_cpc hne hs
+    exact ⟨h1, via (by simpa [Lock.actor] using he) h2⟩
+  case release u =>
+    split at hs; · contradiction
+    split at hs
+    · contradiction
+    · rename_i l h; cases hs; exact ⟨rfl, via (by simpa [Lock.actor] using he) h⟩
+    · rename_i l lo _ h; cases hs; exact ⟨rfl, via (by simpa [Lock.actor] using he) h⟩
+  case wait u pre =>
+    split at hs; · contradiction
+    split at hs
+    · cases hs; exact ⟨by simp [hne], rfl⟩
+    · unfold waitBody at hs
+      split at hs
+      · cases hs; exact ⟨rfl, rfl⟩
+      · simp only at hs
+        split at hs
+        · contradiction
+        · rename_i l h; cases hs; exact ⟨by simp [hne], via (by simpa [Lock.actor] using he) h⟩
+        · rename_i l lo _ h; cases hs; exact ⟨rfl, via (by simpa [Lock.actor] using he) h⟩
+  case notify u n =>
+    split at hs; · contradiction
+    split at hs
+    · cases hs; exact ⟨rfl, rfl⟩
+    · cases hs; have := notifyLoop_cpc n s hp; exact ⟨this.1, by rw [this.2]⟩
+  case notifyAll u =>
+    split at hs; · contradiction
+    split at hs
+    · cases hs; exact ⟨rfl, rfl⟩
+    · cases hs; have := notifyLoop_cpc s.waiters.length s hp; exact ⟨this.1, by rw [this.2]⟩
+  case fc u =>
+    split at hs
+    · cases hs; exact ⟨by simp [hne], rfl⟩
+    all_goals try contradiction
+    all_goals
+      split at hs
+      · rename_i l lo h; cases hs; exact ⟨rfl, via (by simpa [Lock.actor] using he) h⟩
+      · contradiction
+  case mc u =>
+    split at hs
+    · cases hs; exact ⟨by simp [hne], rfl⟩
+    · cases hs; exact ⟨by simp [hne], rfl⟩
+    all_goals try contradiction
+    all_goals
+      split at hs
+      · rename_i l lo h; cases hs; exact ⟨rfl, via (by simpa [Lock.actor] using he) h⟩
+      · contradiction
+  case step u =>
+    split at hs
+    · contradiction
+    · contradiction
+    · cases hs; exact ⟨rfl, rfl⟩
+    · cases hs; exact ⟨by simp [hne], rfl⟩
+    · obtain ⟨h1, lo, h2⟩ := lockResult_cpc hne hs
+      exact ⟨h1, via (by simpa [Lock.actor] using he) h2⟩
+    · obtain ⟨h1, lo, h2⟩ := lockResult_cpc hne hs
+      exact ⟨h1, via (by simpa [Lock.actor] using he) h2⟩
+    · obtain ⟨h1, lo, h2⟩ := reacquire_cpc hne hs
+      exact ⟨h1, via (by simpa [Lock.actor] using he) h2⟩
+    · obtain ⟨h1, lo, h2⟩ := reacquire_cpc hne hs
+      exact ⟨h1, via (by simpa [Lock.actor] using he) h2⟩
+    · obtain ⟨h1, lo, h2⟩ := reacquire_cpc hne hs
+      have hp' : CParked t { s with notified := s.notified.erase u } := hp
+      have h3 := passOn_cpc _ hp'
+      rw [h3.2] at h2
+      exact ⟨by rw [h1, h3.1], via (by simpa [Lock.actor] using he) h2⟩
+    · obtain ⟨h1, lo, h2⟩ := reacquire_cpc hne hs
+      have hp' : CParked t { s with notified := s.notified.erase u } := hp
+      have h3 := passOn_cpc _ hp'
+      rw [h3.2] at h2
+      exact ⟨by rw [h1, h3.1], via (by simpa [Lock.actor] using he) h2⟩
+
+/-- in a reachable state a parked task is not in the embedded lock's queue -/
+theorem cparked_not_queued {s : Condition.State} (hi : Condition.Inv s) {t : Nat}
+    (hp : CParked t s) (hl : s.cpc t = .acq → Lock.Parked t s.lock) :
+    ∀ c, (t, c) ∉ s.lock.waiters := by
+  intro c hm
+  have hw := hi.a.lockInv.waiter_pc t c hm
+  rcases hp with hp | hp | hp
+  · have := (hi.a.pc_link t).mp (by rcases hw with ⟨_, h⟩ | ⟨_, h⟩ <;> simp [h])
+    simp [inLock, hp] at this
+  · have := (hi.a.pc_link t).mp (by rcases hw with ⟨_, h⟩ | ⟨_, h⟩ <;> simp [h])
+    simp [inLock, hp] at this
+  · rcases hl hp with h | h <;> rcases hw with ⟨_, h'⟩ | ⟨_, h'⟩ <;> simp [h] at h'
 
 end Cond
 
